@@ -16,7 +16,7 @@ from dataclasses import dataclass, field
 
 import z3
 
-from .engine import I, fresh
+from .engine import EUCLID, I, fresh
 
 OPAQUE = {}  # uninterpreted function name -> python definition over z3 terms (R4)
 
@@ -152,6 +152,48 @@ def direct_var_patterns(body):
     return keys
 
 
+def const_ids(exprs):
+    ids = set()
+
+    def f(x):
+        if z3.is_const(x) and x.decl().kind() == z3.Z3_OP_UNINTERPRETED:
+            ids.add(x.get_id())
+
+    seen = set()
+    for e in exprs:
+        _walk(e, seen, f)
+    return ids
+
+
+def euclid_lemmas(exprs):
+    """Instances of the (separately proved, see selfcheck_lemmas) uniqueness lemma for Euclidean division:
+         x1 == q1*d + r1, 0 <= r1 < d, x2 == q2*d + r2, 0 <= r2 < d, 0 <= x2 - q1*d < d  ==>  q2 == q1 and r2 == x2 - q1*d
+       for every two witness pairs with the same divisor that occur in the query.  With these the content obligations
+       need linear arithmetic only (products q*d stay opaque)."""
+    ids = const_ids(exprs)
+    live = [p for p in EUCLID if p[2].get_id() in ids or p[3].get_id() in ids]
+    out = []
+    for (x1, d1, q1, r1) in live:
+        for (x2, d2, q2, r2) in live:
+            if q1 is q2 or not d1.eq(d2):
+                continue
+            if z3.is_int_value(d1):
+                continue  # constant divisor: linear already
+            t = x2 - q1 * d1
+            out.append(z3.Implies(z3.And(t >= 0, t < d1), z3.And(q2 == q1, r2 == t)))
+    return out
+
+
+def selfcheck_lemmas():
+    """prove the uniqueness lemma used by euclid_lemmas (once per run, nonlinear, small)"""
+    x1, x2, q1, q2, r1, r2, d = z3.Ints("x1 x2 q1 q2 r1 r2 d")
+    s = z3.Solver()
+    s.set(timeout=30000)
+    s.add(d > 0, x1 == q1 * d + r1, 0 <= r1, r1 < d, x2 == q2 * d + r2, 0 <= r2, r2 < d, x2 - q1 * d >= 0, x2 - q1 * d < d)
+    s.add(z3.Not(z3.And(q2 == q1, r2 == x2 - q1 * d)))
+    return s.check() == z3.unsat
+
+
 @dataclass
 class AtomQuery:
     ob_name: str
@@ -254,13 +296,23 @@ def prepare(obs, shifts_for=None, extra_inst_terms=None, euclid_pairs=None):
                     break
                 inst += added
             defs = unfold_opaque([body] + qf + inst)
+            lem = euclid_lemmas([body] + qf + inst + defs)
             stages = []
             if is_pure_arith(body):
-                stages.append(("arith-core", [h for h in qf if is_pure_arith(h)]))
-            stages.append(("qf+inst", qf + inst + defs))
+                core = [h for h in qf if is_pure_arith(h)]
+                stages.append(("arith-core/lin", core + lem))
+                stages.append(("arith-core", core + lem))
+            stages.append(("qf+inst/lin", qf + inst + defs + lem))
+            stages.append(("qf+inst", qf + inst + defs + lem))
             if len(qf) != len(hyps):
-                stages.append(("full", hyps + inst + defs))
-            texts = [(nm, _smt2(list(hy) + [z3.Not(body)])) for nm, hy in stages]
+                stages.append(("full", hyps + inst + defs + lem))
+            texts = []
+            cache = {}
+            for nm, hy in stages:
+                key = tuple(h.get_id() for h in hy)
+                if key not in cache:
+                    cache[key] = _smt2(list(hy) + [z3.Not(body)])
+                texts.append((nm, cache[key]))
             queries.append(AtomQuery(ob.name, oi, ai, ob.line, ob.path, texts, str(body)[:300]))
     return queries
 
@@ -279,9 +331,11 @@ def _model_dict(m):
     return out
 
 
-def solve_z3(text, timeout_ms, seed=0):
+def solve_z3(text, timeout_ms, seed=0, linear=False):
     s = z3.Solver()
     s.set(timeout=timeout_ms)
+    if linear:
+        s.set("arith.nl", False)  # products stay opaque: weaker theory, so `unsat` is still a proof; other answers are ignored
     if seed:
         s.set("random_seed", seed)
     s.from_string(text)
@@ -319,13 +373,16 @@ def solve_query(q_tuple):
     best = ("unknown", "", 0.0, {}, "z3-5.1", "")
     total = 0.0
     for nm, text in stages:
+        lin = nm.endswith("/lin")
         try:
-            r, dt, model = solve_z3(text, timeout_ms, seed)
+            r, dt, model = solve_z3(text, min(timeout_ms, 5000) if lin else timeout_ms, seed, linear=lin)
         except z3.Z3Exception as e:  # parse/internal error: never a verdict about the code
             return idx, "error", nm, total, {}, "z3-5.1", str(e)[:300]
         total += dt
         if r == "unsat":
             return idx, "unsat", nm, total, {}, "z3-5.1", ""
+        if lin:
+            continue
         if r == "sat":
             # candidate counterexample; quantifier-free stages may be spurious w.r.t. uninstantiated hypotheses
             best = ("sat", nm, total, model, "z3-5.1", "")
@@ -348,11 +405,29 @@ def solve_query(q_tuple):
 _POOL = {}
 
 
-def _pool(jobs):
+def _warm(texts=()):
+    """first use of z3's arithmetic in a fresh process touches ~200 MB (page faults are slow and serialised in this VM:
+    0.9 s alone, ~9 s when 16 workers start together) -- pay that before any query runs under a time budget"""
+    x, y, q, r = z3.Ints("wx wy wq wr")
+    s = z3.Solver()
+    s.set(timeout=20000)
+    s.add(x == q * y + r, 0 <= r, r < y, y > 0, x >= 0, z3.Not(q >= 0))
+    s.check()
+    for text in texts:
+        try:
+            s = z3.Solver()
+            s.set(timeout=3000)
+            s.from_string(text)
+            s.check()
+        except z3.Z3Exception:
+            pass
+
+
+def _pool(jobs, sample_texts=()):
     import multiprocessing as mp
 
     if jobs not in _POOL:
-        _POOL[jobs] = ProcessPoolExecutor(max_workers=jobs, mp_context=mp.get_context("forkserver"))
+        _POOL[jobs] = ProcessPoolExecutor(max_workers=jobs, mp_context=mp.get_context("forkserver"), initializer=_warm, initargs=(tuple(sample_texts),))
     return _POOL[jobs]
 
 
@@ -364,7 +439,8 @@ def run_queries(queries, jobs=None, timeout_ms=10000, thorough=False, seed=0):
     if jobs == 1 or len(tasks) < 3:
         results = map(solve_query, tasks)
     else:
-        ex = _pool(jobs)
+        by_size = sorted((q.stages[0][1] for q in queries if q.stages), key=len)
+        ex = _pool(jobs, [by_size[len(by_size) // 2], by_size[-1]] if by_size else [])
         results = ex.map(solve_query, tasks, chunksize=max(1, min(8, len(tasks) // (jobs * 4))))
     for idx, verdict, stage, secs, model, backend, detail in results:
         q = queries[idx]
